@@ -187,7 +187,11 @@ func check(c Case) (string, string) {
 	dec := json.NewDecoder(bytes.NewReader(enc))
 	dec.UseNumber()
 	var doc interface{}
-	if e := dec.Decode(&doc); e != nil {
+	var e error
+	if p := try(func() { e = dec.Decode(&doc) }); p != "" {
+		return "returned-bytes-unstable", p
+	}
+	if e != nil {
 		return "text-not-json", e.Error() + ": " + string(enc)
 	}
 	obj, ok := doc.(map[string]interface{})
@@ -217,8 +221,10 @@ func check(c Case) (string, string) {
 		if !bytes.Equal(saved, enc) {
 			return "returned-bytes-changed-by-later-Encode", fmt.Sprintf("was %s, now %s", saved, enc)
 		}
-		if g3, e3 := geojson.Decode(enc); e3 != nil || geomgen.Diff(g, g3, true) != "" {
-			return "returned-bytes-changed-by-later-Encode", fmt.Sprintf("%v", e3)
+		var g3 geom.Geom
+		var e3 error
+		if p := try(func() { g3, e3 = geojson.Decode(enc) }); p != "" || e3 != nil || geomgen.Diff(g, g3, true) != "" {
+			return "returned-bytes-changed-by-later-Encode", fmt.Sprintf("%v %v", p, e3)
 		}
 	}
 	// ToGeoJSON / FromGeoJSON object path
@@ -266,6 +272,31 @@ func main() {
 	r.Set("skeletons", len(skels))
 	np := len(geomgen.FinitePatterns)
 	var n, nontrivial int64
+	// sequential history pass (one goroutine, so any sharing between calls is
+	// deterministic): Encode(a), Encode(b), Encode(c); every earlier result
+	// must still hold its own text afterwards.
+	for i := 0; i+2 < len(skels) && i < 600; i += 3 {
+		var encs, saved [3][]byte
+		ok := true
+		for k := 0; k < 3; k++ {
+			var err error
+			if p := try(func() { encs[k], err = geojson.Encode(build(Case{Skel: skels[i+k], Rot: k, Bad: -1})) }); p != "" || err != nil {
+				ok = false
+				break
+			}
+			saved[k] = append([]byte{}, encs[k]...)
+		}
+		n++
+		if !ok {
+			continue
+		}
+		for k := 0; k < 3; k++ {
+			if !bytes.Equal(encs[k], saved[k]) {
+				r.Violation("returned-bytes-changed-by-later-Encode|sequence", map[string]interface{}{"case": Case{Skel: skels[i+k], Rot: k, Bad: -1}, "observed": fmt.Sprintf("was %s, now %s", saved[k], encs[k])})
+				break
+			}
+		}
+	}
 	enum.Parallel(len(skels), r.Expired, func(i int) {
 		s := skels[i]
 		run := func(c Case) {
